@@ -31,6 +31,7 @@ Fixpoint cut_colon (cur : str) (x : str) : option (str * str) :=
 Definition is_blank_line (l : str) : bool := str_eqb l [] || str_eqb l [cr].
 Definition starts (c : ascii) (l : str) : bool := match l with x :: _ => ceq x c | [] => false end.
 
+Definition dashc : ascii := "-"%char.
 Inductive rres := RPara (p : para) (rest : list str) | REOF | RErr.
 
 Definition cont_value (v c : str) : str :=
@@ -58,7 +59,7 @@ Fixpoint next (p : para) (last : str) (ls : list str) : rres :=
         | Some (k, v) =>
             let key := trim_space k in
             let value := trim_space v in
-            if starts hash key then RErr
+            if starts hash key || starts dashc key then RErr     (* Policy 5.1: a field name begins with neither '#' nor '-' (repair 1b827a1) *)
             else if mem key (values p) then RErr
             else next {| order := order p ++ [key]; values := values p ++ [(key, value)] |} key rest
         end
@@ -221,7 +222,7 @@ Qed.
 (* ---------- key line ---------- *)
 Record key_ok (k : str) : Prop := {
   k_ne : k <> []; k_nocolon : free colon k; k_nonl : free nl k;
-  k_lead : no_lead k; k_trail : no_trail k; k_nohash : starts hash k = false }.
+  k_lead : no_lead k; k_trail : no_trail k; k_nohash : starts hash k = false; k_nodash : starts dashc k = false }.
 
 Lemma cut_colon_word : forall k cur r, free colon k -> cut_colon cur (k ++ colon :: r) = Some (rev cur ++ k, r).
 Proof.
@@ -238,10 +239,10 @@ Lemma next_keyline p last k l0 rest : key_ok k -> mem k (values p) = false ->
   next p last ((k ++ [colon; sp] ++ l0) :: rest) =
   next {| order := order p ++ [k]; values := values p ++ [(k, trim_space l0)] |} k rest.
 Proof.
-  intros [Hne Hcol Hnl Hlead Htrail Hhash] Hm.
+  intros [Hne Hcol Hnl Hlead Htrail Hhash Hdash] Hm.
   assert (C : cut_colon [] (k ++ [colon; sp] ++ l0) = Some (k, sp :: l0))
     by (exact (cut_colon_word k [] (sp :: l0) Hcol)).
-  destruct k as [|c k']; [congruence|]. cbn [no_lead] in Hlead. cbn [starts] in Hhash.
+  destruct k as [|c k']; [congruence|]. cbn [no_lead] in Hlead. cbn [starts] in Hhash, Hdash.
   set (X := (c :: k') ++ [colon; sp] ++ l0) in *.
   assert (HX : X = c :: (k' ++ [colon; sp] ++ l0)) by reflexivity.
   assert (B : is_blank_line X = false).
@@ -254,7 +255,7 @@ Proof.
   assert (H3 : starts tab X = false).
   { rewrite HX. cbn [starts]. destruct (ceq_spec c tab); [subst; discriminate Hlead|reflexivity]. }
   cbn [next]. rewrite B, H1, H2, H3, C. cbn [orb].
-  rewrite (trim_space_id (c :: k')) by assumption. cbn [starts]. rewrite Hhash. rewrite trim_space_lead_sp, Hm. reflexivity.
+  rewrite (trim_space_id (c :: k')) by assumption. cbn [starts]. rewrite Hhash, Hdash. cbn [orb]. rewrite trim_space_lead_sp, Hm. reflexivity.
 Qed.
 
 (* ---------- what the continuation lines add up to ---------- *)
